@@ -31,6 +31,7 @@ import (
 	"sort"
 	"strings"
 	"testing"
+	"time"
 
 	"github.com/ethereum/go-ethereum/ethdb"
 	"github.com/ethereum/go-ethereum/rlp"
@@ -232,6 +233,7 @@ func c24Data(salt uint64, table int, pos uint64, gen int, size int) []byte {
 type c24Point struct {
 	state  *crashfs.State
 	expect *c24Expect
+	ops    []string // operations issued up to this point
 }
 
 type c24Run struct {
@@ -245,7 +247,16 @@ type c24Run struct {
 	salt    uint64
 	opsDesc []string
 	opDats  int // number of data files when the current operation started
+
+	excluded         int  // draws reshaped because of a listed known finding
+	tailBeyondSynced bool // history truncated a tail above the synced head
 }
+
+// Class labels of known-finding signatures (see notes/C24.md).
+const (
+	c24KnownTailBeyondSynced = "tail-truncation-beyond-synced-head"
+	c24KnownEmptyNonPrunable = "nonprunable-table-empty-after-crash"
+)
 
 func c24SameFiles(a, b *crashfs.State) bool {
 	if len(a.Files) != len(b.Files) {
@@ -282,7 +293,7 @@ func (r *c24Run) observe(e *c24Expect, dedupe bool) {
 	if c24DatCount(s) > r.opDats {
 		e.rollover = true
 	}
-	r.points = append(r.points, c24Point{state: s, expect: e})
+	r.points = append(r.points, c24Point{state: s, expect: e, ops: r.opsDesc[:len(r.opsDesc):len(r.opsDesc)]})
 }
 
 func (r *c24Run) open() {
@@ -410,10 +421,22 @@ func (r *c24Run) opTruncateTail() bool {
 	case rapid.IntRange(0, 9).Draw(rt, "ttNoop") == 0:
 		n = rapid.Uint64Range(0, cur).Draw(rt, "ttStale")
 	default:
-		if cur >= m.head {
+		hi := m.head
+		if vs.Known("TestVerifC24Crash", c24KnownTailBeyondSynced) {
+			// known finding: hiding/deleting items above the head covered by the last
+			// completed sync; excluded by construction while it is listed
+			if hi > m.syncedHead {
+				hi = m.syncedHead
+				r.excluded++
+			}
+		}
+		if cur >= hi {
 			return false
 		}
-		n = rapid.Uint64Range(cur+1, m.head).Draw(rt, "ttTarget")
+		n = rapid.Uint64Range(cur+1, hi).Draw(rt, "ttTarget")
+		if n > m.syncedHead {
+			r.tailBeyondSynced = true
+		}
 	}
 	r.opsDesc = append(r.opsDesc, fmt.Sprintf("truncateTail(%s,%d) tail=%d head=%d", g, n, cur, m.head))
 	old, err := r.f.TruncateTail(g, n)
@@ -441,7 +464,15 @@ func (r *c24Run) opSync() {
 		r.rt.Fatalf("SyncAncient failed: %v", err)
 	}
 	r.model.markSynced()
+	r.barrier()
 	r.observe(r.model.expect(nil, fmt.Sprintf("op%d:after sync", len(r.opsDesc)-1)), false)
+}
+
+// barrier tells the tracker that everything currently in the directory is durable.
+func (r *c24Run) barrier() {
+	if _, err := r.tracker.Observe(); err != nil {
+		r.rt.Fatalf("VERIF-HARNESS-BUG: observe: %v", err)
+	}
 	r.tracker.Sync()
 }
 
@@ -451,12 +482,12 @@ func (r *c24Run) opReopen() {
 		r.rt.Fatalf("Close failed: %v", err)
 	}
 	r.model.markSynced()
+	r.barrier()
 	r.observe(r.model.expect(nil, fmt.Sprintf("op%d:after close", len(r.opsDesc)-1)), false)
-	r.tracker.Sync()
 	r.open()
-	c24CheckOpen(r.rt, r.f, r.cfg, r.model.expect(nil, "clean reopen"), true, "clean reopen "+fmt.Sprint(r.opsDesc))
+	c24CheckOpen(r.rt, r.f, r.cfg, r.model.expect(nil, "clean reopen"), true, fmt.Sprintf("clean reopen (config %s, ops %v)", r.cfg, r.opsDesc))
+	r.barrier()
 	r.observe(r.model.expect(nil, fmt.Sprintf("op%d:after reopen", len(r.opsDesc)-1)), false)
-	r.tracker.Sync()
 }
 
 // ---------------------------------------------------------------- file formats (written from the format description, not via the table code)
@@ -659,6 +690,13 @@ func c24CheckOpen(rt *rapid.T, f *Freezer, cfg *c24Config, e *c24Expect, exact b
 				rt.Fatalf("%s: Ancient(%s,%d)=%x, appended %x [%s]", ctx, t.name, p, got, exp, e.where)
 			}
 			all = append(all, exp)
+			if len(exp) > 0 && p == want { // smoke test of the partial read on the first readable item
+				off, l := uint64(len(exp)/3), uint64(len(exp)/2)
+				part, err := f.AncientBytes(t.name, p, off, l)
+				if err != nil || !bytes.Equal(part, exp[off:off+l]) {
+					rt.Fatalf("%s: AncientBytes(%s,%d,%d,%d)=%x,%v want %x", ctx, t.name, p, off, l, part, err, exp[off:off+l])
+				}
+			}
 		}
 		if head > want {
 			rng, err := f.AncientRange(t.name, want, head-want, 0)
@@ -693,9 +731,61 @@ type c24Outcome struct {
 	tailBack   bool   // some group tail fell below the tail as of the last completed sync
 }
 
+// c24Open opens a freezer and turns a panic of the open path into an error so that
+// the failing image is reported (and shrunk) instead of a bare stack trace.
+func c24Open(dir string, cfg *c24Config) (f *Freezer, err error) {
+	defer func() {
+		if r := recover(); r != nil {
+			f, err = nil, fmt.Errorf("NewFreezer panicked: %v", r)
+		}
+	}()
+	return NewFreezer(dir, "", false, cfg.maxSize, cfg.tableMap())
+}
+
+// c24ItemsAfterIndexRepair predicts, from the image alone, how many items (including
+// deleted ones) each table holds once its index is cut back to the flushOffset.
+func c24ItemsAfterIndexRepair(cfg *c24Config, img *crashfs.Snapshot) map[string]uint64 {
+	out := map[string]uint64{}
+	for i := range cfg.tables {
+		t := &cfg.tables[i]
+		idx := img.Files[t.idxName()]
+		mv, err := c24ParseMeta(img.Files[t.metaName()])
+		if err != nil || len(idx) < 6 {
+			out[t.name] = 0
+			continue
+		}
+		n := int64(len(idx)) / 6 * 6
+		if int64(mv.Offset) < n {
+			n = int64(mv.Offset)
+		}
+		es := c24ParseIndex(idx[:n])
+		if len(es) == 0 {
+			out[t.name] = 0
+			continue
+		}
+		out[t.name] = uint64(es[0].offset) + uint64(len(es)-1)
+	}
+	return out
+}
+
+// c24EmptyNonPrunable reports the trigger of a known-finding candidate: after index
+// repair a non-prunable table is empty while another table still holds items.
+func c24EmptyNonPrunable(cfg *c24Config, img *crashfs.Snapshot) bool {
+	items := c24ItemsAfterIndexRepair(cfg, img)
+	var nonEmpty, emptyNP bool
+	for _, t := range cfg.tables {
+		if items[t.name] > 0 {
+			nonEmpty = true
+		} else if t.group == "" {
+			emptyNP = true
+		}
+	}
+	return nonEmpty && emptyNP
+}
+
 // c24Reopen materialises the image, reopens it, checks it and continues using it.
 func c24Reopen(rt *rapid.T, cfg *c24Config, p *c24Point, cuts crashfs.Cuts, salt uint64) c24Outcome {
-	dir, err := os.MkdirTemp("", "c24img")
+	dir, err := os.MkdirTemp(c24TempRoot, "c24img")
 	if err != nil {
 		rt.Fatalf("VERIF-HARNESS-BUG: mkdir: %v", err)
 	}
@@ -704,8 +794,8 @@ func c24Reopen(rt *rapid.T, cfg *c24Config, p *c24Point, cuts crashfs.Cuts, salt
 		rt.Fatalf("VERIF-HARNESS-BUG: image: %v", err)
 	}
 	e := p.expect
-	ctx := fmt.Sprintf("crash image at %q (config %s) cuts %s", e.where, cfg, c24CutsString(p.state, cuts))
-	f, err := NewFreezer(dir, "", false, cfg.maxSize, cfg.tableMap())
+	ctx := fmt.Sprintf("crash image at %q (config %s, ops %v) cuts %s", e.where, cfg, p.ops, c24CutsString(p.state, cuts))
+	f, err := c24Open(dir, cfg)
 	if err != nil {
 		rt.Fatalf("%s: reopen failed: %v", ctx, err)
 	}
@@ -761,12 +851,21 @@ func c24Reopen(rt *rapid.T, cfg *c24Config, p *c24Point, cuts crashfs.Cuts, salt
 		rt.Fatalf("%s: close after recovery failed: %v", ctx, err)
 	}
 	closed = true
-	f2, err := NewFreezer(dir, "", false, cfg.maxSize, cfg.tableMap())
+	f2, err := c24Open(dir, cfg)
 	if err != nil {
 		rt.Fatalf("%s: second reopen failed: %v", ctx, err)
 	}
-	defer f2.Close()
 	c24CheckOpen(rt, f2, cfg, after, true, ctx+" after recovery+append+clean reopen")
+	if err := f2.Close(); err != nil {
+		rt.Fatalf("%s: close after second reopen failed: %v", ctx, err)
+	}
+	// smoke test: a read-only open of the cleanly closed, recovered directory validates and serves the same
+	f3, err := NewFreezer(dir, "", true, cfg.maxSize, cfg.tableMap())
+	if err != nil {
+		rt.Fatalf("%s: read-only open after recovery and clean close failed: %v", ctx, err)
+	}
+	defer f3.Close()
+	c24CheckOpen(rt, f3, cfg, after, true, ctx+" read-only open after recovery")
 	return out
 }
 
@@ -795,7 +894,7 @@ func c24CutsString(s *crashfs.State, cuts crashfs.Cuts) string {
 
 func c24History(rt *rapid.T) *c24Run {
 	cfg := c24DrawConfig(rt)
-	dir, err := os.MkdirTemp("", "c24")
+	dir, err := os.MkdirTemp(c24TempRoot, "c24")
 	if err != nil {
 		rt.Fatalf("VERIF-HARNESS-BUG: mkdir: %v", err)
 	}
@@ -804,21 +903,23 @@ func c24History(rt *rapid.T) *c24Run {
 		func(n string) bool { return n == "FLOCK" })
 	r.open()
 	r.opDats = 1 << 30
+	r.barrier()
 	r.observe(r.model.expect(nil, "after create"), false)
-	r.tracker.Sync()
 	nops := rapid.IntRange(2, 12).Draw(rt, "ops")
 	for i := 0; i < nops; i++ {
 		r.opDats = c24DatCount(r.points[len(r.points)-1].state)
-		switch k := rapid.IntRange(0, 11).Draw(rt, "op"); {
-		case k <= 5 || r.model.head == 0:
+		switch k := rapid.IntRange(0, 13).Draw(rt, "op"); {
+		case k <= 5:
 			r.opAppend()
-		case k <= 7:
+		case k <= 8:
 			if !r.opTruncateTail() {
 				r.opAppend()
 			}
-		case k == 8:
+		case r.model.head == 0:
+			r.opAppend()
+		case k == 9:
 			r.opTruncateHead()
-		case k <= 10:
+		case k <= 12:
 			r.opSync()
 		default:
 			r.opReopen()
@@ -838,6 +939,12 @@ func c24Property(rt *rapid.T, st *vs.S) {
 	c := st.Case()
 	c.Classf("max%d", r.cfg.maxSize)
 	c.Classf("tables%d", len(r.cfg.tables))
+	for i := 0; i < r.excluded; i++ {
+		st.Excluded()
+	}
+	if r.tailBeyondSynced {
+		c.Class("history:" + c24KnownTailBeyondSynced)
+	}
 	for _, d := range r.opsDesc {
 		c.Class("op:" + strings.SplitN(d, "(", 2)[0])
 	}
@@ -878,6 +985,13 @@ func c24Property(rt *rapid.T, st *vs.S) {
 				continue // identical to an image already checked at this point
 			}
 			seen[dg] = true
+			if c24EmptyNonPrunable(r.cfg, img) {
+				c.Class("image:" + c24KnownEmptyNonPrunable)
+				if vs.Known("TestVerifC24Crash", c24KnownEmptyNonPrunable) {
+					st.Excluded()
+					continue
+				}
+			}
 			c.Fault()
 			out := c24Reopen(rt, r.cfg, p, cuts, r.salt)
 			strict := p.state.StrictCut(cuts)
@@ -921,9 +1035,40 @@ func c24Property(rt *rapid.T, st *vs.S) {
 	c.Classf("points:%d", min(len(r.points)/10*10, 50))
 }
 
+// c24TempRoot is where freezer directories and crash images are created: a private
+// directory on tmpfs when available (the freezer fsyncs on every open, close and
+// repair step, which dominates the run time on a disk-backed TMPDIR; durability is
+// modelled by the harness, not by the device), the driver's TMPDIR otherwise ("").
+var c24TempRoot string
+
+func c24SetupTemp(t *testing.T) {
+	const shm = "/dev/shm"
+	if fi, err := os.Stat(shm); err != nil || !fi.IsDir() {
+		return
+	}
+	// drop leftovers of runs that were killed (older than an hour)
+	if ents, err := os.ReadDir(shm); err == nil {
+		for _, e := range ents {
+			if !strings.HasPrefix(e.Name(), "verif-c24-") {
+				continue
+			}
+			if info, err := e.Info(); err == nil && time.Since(info.ModTime()) > time.Hour {
+				os.RemoveAll(shm + "/" + e.Name())
+			}
+		}
+	}
+	dir, err := os.MkdirTemp(shm, "verif-c24-")
+	if err != nil {
+		return
+	}
+	c24TempRoot = dir
+	t.Cleanup(func() { os.RemoveAll(dir); c24TempRoot = "" })
+}
+
 // TestVerifC24Crash runs random freezer histories and reopens crash images taken
 // at every observed instant.
 func TestVerifC24Crash(t *testing.T) {
 	st := vs.New("C24", t)
+	c24SetupTemp(t)
 	vs.Check(t, 1, func(rt *rapid.T) { c24Property(rt, st) })
 }
